@@ -48,7 +48,7 @@ func init() {
 			RetFmt: "(%s, " + st + ")", LVals: flags,
 			Hints: map[string]string{"rt.timer.Stop()": "tstop"},
 			SHints: map[string]string{
-				"rt.verifyNotReleased()":  verify,
+				"rt.verifyNotReleased()": verify,
 				"rt.markTimerInactive()": markInactive,
 			}},
 		{Func: "relayTimer.Start", Out: "c10TimerStart", File: "GenC10Timer", Soft: true,
@@ -80,8 +80,8 @@ func init() {
 				"verifPoint(...":         "",
 				"rt.verifyNotReleased()": verify,
 				"items, id, isOriginator := rt.items, rt.id, rt.isOriginator": "let id := f_id in let isOriginator := f_orig in",
-				"rt.markTimerInactive()":                                      markInactive,
-				"rt.pool.trigger(items, id, isOriginator)":                    "let fired := (f_active, (id, isOriginator)) in",
+				"rt.markTimerInactive()":                   markInactive,
+				"rt.pool.trigger(items, id, isOriginator)": "let fired := (f_active, (id, isOriginator)) in",
 			}},
 		// relayTimerPool.Get, recycled branch: the released flag is cleared (a fresh timer has
 		// every flag false: Go zero values)
